@@ -5,7 +5,7 @@ from typing import Any
 
 from ..context import DEFAULT_SQL_CONTEXT, SqlContext
 from ..enums import Dialects
-from ..queries import Query, QueryBuilder
+from ..queries import CreateQueryBuilder, Query, QueryBuilder, Table
 from ..terms import ValueWrapper
 
 
@@ -26,6 +26,10 @@ class SQLLiteQuery(Query):
     @classmethod
     def _builder(cls, **kwargs: Any) -> "SQLLiteQueryBuilder":
         return SQLLiteQueryBuilder(**kwargs)
+
+    @classmethod
+    def create_table(cls, table: str | Table) -> "SQLLiteCreateQueryBuilder":
+        return SQLLiteCreateQueryBuilder().create_table(table)
 
 
 class SQLLiteQueryBuilder(QueryBuilder):
@@ -101,3 +105,13 @@ class SQLLiteQueryBuilder(QueryBuilder):
                 builder._wheres = SQLLiteValueWrapper(True, allow_parametrize=False)  # type:ignore[assignment]
             querystring = QueryBuilder.get_sql(builder, ctx=ctx)
         return querystring
+
+
+class SQLLiteCreateQueryBuilder(CreateQueryBuilder):
+    QUERY_CLS = SQLLiteQuery
+
+    def _as_select_sql(self, ctx: SqlContext) -> str:
+        # SQLite's CREATE TABLE ... AS takes a bare select-stmt; the parenthesised form is a syntax error there
+        return " AS {query}".format(
+            query=self._as_select.get_sql(ctx),  # type:ignore[union-attr]
+        )
